@@ -37,12 +37,13 @@ package tbtc
 //           on the chain's block counter, every block the executor waits for.
 
 import (
+	"bytes"
 	"context"
 	"fmt"
 	"math/big"
-	"reflect"
 	"runtime"
 	"sort"
+	"strings"
 	"sync"
 	"testing"
 	"time"
@@ -519,27 +520,82 @@ func c46BuildNode(t *testing.T, s *c46Setup) (*c46Node, error) {
 	return &c46Node{n, sg, exec, rec}, nil
 }
 
-// c46Drive advances the virtual chain to the next block somebody waits for,
-// each time the registrations have been quiet for a moment, until done()
-// (liveness only; no judged value depends on when this happens).
-func c46Drive(clk *verifkit.Clock, regs func() int, done func() bool) bool {
+// c46AllBlocked reports whether every goroutine of the process other than
+// the caller is blocked (channel, select, mutex, sleep, ...): a stop-the-world
+// snapshot of the goroutine states. When it is true nothing is in flight: the
+// code under test can only continue when the virtual chain moves (or a
+// real-time timer of an unrelated background goroutine fires).
+func c46AllBlocked() bool {
+	buf := make([]byte, 1<<20)
+	for {
+		n := runtime.Stack(buf, true)
+		if n < len(buf) {
+			buf = buf[:n]
+			break
+		}
+		buf = make([]byte, 2*len(buf))
+	}
+	for k, g := range bytes.Split(buf, []byte("\n\n")) {
+		if k == 0 || !bytes.HasPrefix(g, []byte("goroutine ")) {
+			continue // k == 0: the caller itself
+		}
+		i, j := bytes.IndexByte(g, '['), bytes.IndexByte(g, ']')
+		if i < 0 || j < i {
+			return false
+		}
+		st := string(g[i+1 : j])
+		if c := strings.IndexByte(st, ','); c >= 0 { // "select, 2 minutes"
+			st = st[:c]
+		}
+		blocked := false
+		for _, p := range c46BlockedStates {
+			if strings.HasPrefix(st, p) {
+				blocked = true
+				break
+			}
+		}
+		if !blocked && st == "syscall" && bytes.Contains(g, []byte("os/signal.")) {
+			blocked = true // the signal watcher sits in a syscall for ever
+		}
+		if st == "semacquire" && !bytes.Contains(g, []byte("sync.runtime_Sem")) {
+			// a semaphore of the runtime itself, e.g. a goroutine that wants to
+			// start a GC cycle and waits for THIS stop-the-world to end: it is
+			// in flight, not parked by the code under test
+			blocked = false
+		}
+		if !blocked {
+			return false // running, runnable, in a (logging) syscall, ...
+		}
+	}
+	return true
+}
+
+// goroutine wait reasons that mean "parked until somebody else acts"
+var c46BlockedStates = []string{"chan receive", "chan send", "select", "sleep", "semacquire", "sync.", "IO wait",
+	"finalizer wait", "GC worker (idle)", "GC sweep wait", "GC scavenge wait", "force gc (idle)", "trace reader", "timer goroutine (idle)", "cleanup wait"}
+
+// c46Drive moves the virtual chain to the next block somebody waits for, but
+// only at instants at which every goroutine is blocked, until done(). The
+// chain therefore never moves while a consequence of the previous block is
+// still being computed: the height at which something happens (a function
+// returns, a wait is registered) is exact, not "at least".
+func c46Drive(clk *verifkit.Clock, done func() bool) bool {
 	limit := time.Now().Add(3 * c46Watchdog)
 	for !done() {
 		if time.Now().After(limit) {
 			return false
 		}
-		n := regs()
-		time.Sleep(time.Millisecond)
-		if regs() != n || done() {
+		if !c46AllBlocked() {
+			time.Sleep(50 * time.Microsecond)
 			continue
 		}
+		if done() {
+			break
+		}
 		if b, ok := clk.NextWaited(); ok {
-			// a far target right after a quiet moment may only mean that the
-			// loop has not registered its next wait yet: walk, do not jump
-			if h := clk.Height(); b > h+64 {
-				b = h + 1
-			}
 			clk.Set(b, false)
+		} else {
+			time.Sleep(200 * time.Microsecond)
 		}
 	}
 	return true
@@ -561,110 +617,65 @@ func c46Flush(clk *verifkit.Clock) {
 	}
 }
 
-// c46LoopTimeout finds, among the executor's waits, the one made with the
-// context the executor was GIVEN (sign() waits on it exactly once per signer:
-// the loop timeout); all the retry loop's waits use the derived loop context.
-func c46LoopTimeout(recs []c46WaitRec, outer context.Context) (lt uint64, minLoopWait uint64, loopWaits int, ok bool) {
-	cnt := map[context.Context]int{}
-	for _, x := range recs {
-		cnt[x.ctx]++
-	}
-	if outer == nil {
-		// the loop context is context.WithCancel(<context given to sign>):
-		// the given context is the one that is the parent of another
-		// recorded context
-		for c := range cnt {
-			if p := c46Parent(c); p != nil && cnt[p] > 0 {
-				if outer != nil && outer != p {
-					return 0, 0, 0, false
-				}
-				outer = p
-			}
-		}
-	}
-	if outer == nil || cnt[outer] != 1 || len(cnt) != 2 {
-		return 0, 0, 0, false
-	}
-	first := true
-	for _, x := range recs {
-		if x.ctx == outer {
-			lt = x.Target
-			continue
-		}
-		loopWaits++
-		if first || x.Target < minLoopWait {
-			minLoopWait, first = x.Target, false
-		}
-	}
-	return lt, minLoopWait, loopWaits, loopWaits >= 1
+// c46Loop is what one run of the real signing executor for one message showed.
+type c46Loop struct {
+	L        uint64 // blocks from the start block to the block at which sign() returned its failure
+	firstRel uint64 // first block the executor waits for, relative to the start block
+	recs     []c46WaitRec
 }
 
-// c46Parent returns the parent of a context made by context.WithCancel (the
-// embedded, exported Context field of the standard library's cancel context).
-func c46Parent(c context.Context) (parent context.Context) {
-	defer func() {
-		if recover() != nil {
-			parent = nil
-		}
-	}()
-	v := reflect.ValueOf(c)
-	if v.Kind() != reflect.Ptr || v.Elem().Kind() != reflect.Struct {
-		return nil
-	}
-	f := v.Elem().FieldByName("Context")
-	if !f.IsValid() || !f.CanInterface() {
-		return nil
-	}
-	p, _ := f.Interface().(context.Context)
-	return p
-}
-
-func c46MeasureLoop(t *testing.T, r *verifkit.Run, S uint64) (L uint64, recs []c46WaitRec, ok bool) {
+// c46MeasureLoop runs the node's real signing executor for one message from
+// block S on a virtual chain (one local signer of five: every attempt is a
+// minority) and observes at which block sign() gives up. The chain only moves
+// when everything is blocked (c46Drive), so that block is exact.
+func c46MeasureLoop(t *testing.T, r *verifkit.Run, S uint64) (c46Loop, bool) {
+	var out c46Loop
 	s, err := c46NewSetup(ActionHeartbeat, S)
 	if err != nil {
 		r.Inconclusive("set-up: " + err.Error())
-		return 0, nil, false
+		return out, false
 	}
 	cn, err := c46BuildNode(t, s)
 	if err != nil {
 		r.Inconclusive("node: " + err.Error())
-		return 0, nil, false
+		return out, false
 	}
-	outer, cancel := context.WithCancel(context.Background())
-	defer cancel()
 	var done bool
+	var retAt uint64
+	var signErr error
 	var dmu sync.Mutex
 	go func() {
 		r.Guard("loop:", fmt.Sprintf("sign start=%d", S), func() {
-			_, _, _, _ = cn.exec.sign(outer, big.NewInt(0x5eed), S)
+			_, _, _, signErr = cn.exec.sign(context.Background(), big.NewInt(0x5eed), S)
 		})
+		h := s.clk.Height()
 		dmu.Lock()
-		done = true
+		retAt, done = h, true
 		dmu.Unlock()
 	}()
-	finished := c46Drive(s.clk, func() int { return len(cn.execRec.records()) }, func() bool { dmu.Lock(); defer dmu.Unlock(); return done })
-	recs = cn.execRec.records()
+	finished := c46Drive(s.clk, func() bool { dmu.Lock(); defer dmu.Unlock(); return done })
+	out.recs = cn.execRec.records()
+	c46Flush(s.clk)
 	if !finished {
 		r.Inconclusive(fmt.Sprintf("real signing executor did not give up (start %d)", S))
-		return 0, recs, false
+		return out, false
 	}
-	lt, minW, _, ok := c46LoopTimeout(recs, outer)
-	if !ok {
-		r.Inconclusive(fmt.Sprintf("could not identify the loop timeout wait of the signing executor (start %d, %d waits)", S, len(recs)))
-		return 0, recs, false
+	if signErr == nil || len(out.recs) == 0 {
+		r.Inconclusive(fmt.Sprintf("real signing executor run not usable (start %d, err=%v, %d waits)", S, signErr, len(out.recs)))
+		return out, false
 	}
-	if lt2, _, _, ok2 := c46LoopTimeout(recs, nil); !ok2 || lt2 != lt {
-		r.Inconclusive("loop timeout identification by context identity and by parent link disagree")
-		return 0, recs, false
+	minW := out.recs[0].Target
+	for _, x := range out.recs {
+		if x.Target < minW {
+			minW = x.Target
+		}
 	}
-	if minW < S {
-		r.Violation("loop:waits-before-start", fmt.Sprintf("the signing executor started at block %d waits for block %d", S, minW), fmt.Sprintf("sign start=%d", S), nil)
+	if minW < S || retAt < S {
+		r.Violation("loop:before-start", fmt.Sprintf("the signing executor started at block %d waits for block %d / returns at block %d", S, minW, retAt), fmt.Sprintf("sign start=%d", S), nil)
+		return out, false
 	}
-	if lt < S {
-		r.Violation("loop:timeout-before-start", fmt.Sprintf("the signing executor started at block %d gives up at block %d", S, lt), fmt.Sprintf("sign start=%d", S), nil)
-		return 0, recs, false
-	}
-	return lt - S, recs, true
+	out.L, out.firstRel = retAt-S, minW-S
+	return out, true
 }
 
 func c46Targets(recs []c46WaitRec) []uint64 {
@@ -677,22 +688,36 @@ func c46Targets(recs []c46WaitRec) []uint64 {
 
 var c46LoopStarts = []uint64{0, 1000000, 1 << 40}
 
-// c46LoopLength returns the loop length measured at the first start block.
-func c46LoopLength(t *testing.T, r *verifkit.Run) (uint64, bool) {
-	L, _, ok := c46MeasureLoop(t, r, 0)
-	return L, ok
+// c46LoopLength returns the loop measured at the first start block.
+// A late observation can only make the loop look longer, never shorter, so
+// the minimum of repeated measurements is taken.
+func c46LoopLength(t *testing.T, r *verifkit.Run) (c46Loop, bool) {
+	return c46MeasureLoopMin(t, r, 0, 2)
+}
+
+func c46MeasureLoopMin(t *testing.T, r *verifkit.Run, S uint64, times int) (c46Loop, bool) {
+	var best c46Loop
+	got := false
+	for i := 0; i < times; i++ {
+		lp, ok := c46MeasureLoop(t, r, S)
+		if ok && (!got || lp.L < best.L) {
+			best, got = lp, true
+		}
+	}
+	return best, got
 }
 
 func TestVerif_C46_Loop(t *testing.T) {
 	r := verifkit.Start(t, "C46", "loop")
 	defer r.Finish()
-	r.SetRule("the node's own signing executor (attempt limit as configured by node.getSigningExecutor, one local signer of five so that every attempt ends in a minority) signs one message from start blocks {0,1e6,2^40} on a virtual chain; observed: the block of the wait made on the context given to sign() (the loop gives up there) and all waits of the retry loop. non-trivial = the loop ran to exhaustion")
+	r.SetRule("the node's own signing executor (attempt limit as configured by node.getSigningExecutor, one local signer of five so that every attempt ends in a minority) signs one message from start blocks {0,1e6,2^40} on a virtual chain; observed: the block at which sign() returns its failure (the chain only moves while every goroutine is blocked, so the block is exact) and all block waits of the executor. non-trivial = the loop ran to exhaustion")
 	var Ls []uint64
 	for _, S := range c46LoopStarts {
-		L, recs, ok := c46MeasureLoop(t, r, S)
+		lp, ok := c46MeasureLoopMin(t, r, S, 2)
 		if !ok {
 			continue
 		}
+		L, recs := lp.L, lp.recs
 		r.Case(fmt.Sprintf("loop start=%d", S), len(recs) >= 3)
 		Ls = append(Ls, L)
 		tg := c46Targets(recs)
@@ -728,11 +753,12 @@ func TestVerif_C46_Actions(t *testing.T) {
 	defer r.Finish()
 	r.SetRule("exhaustive grid: 5 action types x start blocks {0,1,899,1e6,2^40,2^63-1300}; expiry = start + documented validity; each action is executed for real against the package's local chains with recording signing/claim executor stubs on a virtual chain. non-trivial = the stub was reached, the context it was given ended exactly when the chain reached the block the action waits for, and the post-signing step ran")
 	r.SetExhaustive(true)
-	L, okL := c46LoopLength(t, r)
+	lp, okL := c46LoopLength(t, r)
 	if !okL {
 		r.Inconclusive("loop length not measurable")
 		return
 	}
+	L := lp.L
 	r.Count("loop_blocks", int64(L))
 	for _, kind := range c46Actions {
 		for _, start := range c46StartGrid {
@@ -875,81 +901,297 @@ func TestVerif_C46_Actions(t *testing.T) {
 
 var c46CoordinationBlocks = []uint64{0, 900, 999900, 1 << 40, (1 << 63) - 1400}
 
+// c46MinTarget returns the lowest block among the executor's waits.
+func c46MinTarget(recs []c46WaitRec) (uint64, bool) {
+	if len(recs) == 0 {
+		return 0, false
+	}
+	m := recs[0].Target
+	for _, x := range recs {
+		if x.Target < m {
+			m = x.Target
+		}
+	}
+	return m, true
+}
+
+func c46ActionDeadlines(c *c46Counter) []uint64 {
+	// the action's own waits go through node.waitForBlockHeight, i.e.
+	// BlockHeightWaiter of the chain's block counter (the executor's waits go
+	// to the executor's recorder instead)
+	var out []uint64
+	for _, x := range c.calls() {
+		if x.Method == "BlockHeightWaiter" {
+			out = append(out, x.Block)
+		}
+	}
+	return out
+}
+
+// c46RealAction builds the action of the given kind around the node's REAL
+// signing executor and the node's own waitForBlockHeight.
+func c46RealAction(cn *c46Node, s *c46Setup, start, expiry uint64) (walletAction, error) {
+	wf := cn.node.waitForBlockHeight
+	switch s.kind {
+	case ActionHeartbeat:
+		ice, ok, err := cn.node.getInactivityClaimExecutor(s.wallet.publicKey)
+		if err != nil || !ok {
+			return nil, fmt.Errorf("no inactivity claim executor: %v", err)
+		}
+		return newHeartbeatAction(logger, s.host, s.wallet, cn.exec, s.proposal.(*HeartbeatProposal), cn.node.heartbeatFailureCounter, ice, start, expiry, wf), nil
+	case ActionDepositSweep:
+		return newDepositSweepAction(logger.With(), s.host, s.btc, s.wallet, cn.exec, s.proposal.(*DepositSweepProposal), start, expiry, wf), nil
+	case ActionRedemption:
+		return newRedemptionAction(logger.With(), s.host, s.btc, s.wallet, cn.exec, s.proposal.(*RedemptionProposal), start, expiry, wf), nil
+	case ActionMovingFunds:
+		return newMovingFundsAction(logger.With(), s.host, s.btc, s.wallet, cn.exec, s.proposal.(*MovingFundsProposal), start, expiry, wf), nil
+	case ActionMovedFundsSweep:
+		return newMovedFundsSweepAction(logger.With(), s.host, s.btc, s.wallet, cn.exec, s.proposal.(*MovedFundsSweepProposal), start, expiry, wf), nil
+	}
+	return nil, fmt.Errorf("unknown action")
+}
+
+// blocks between the action start and the signing deadline in the
+// "deadline arrives while signing is in progress" scenario: inside the first
+// announcement, between attempts, inside a later announcement, late in the loop
+var c46ShortWindows = []uint64{36, 45, 88, 100, 170}
+
 func TestVerif_C46_Node(t *testing.T) {
 	r := verifkit.Start(t, "C46", "node")
 	defer r.Finish()
-	r.SetRule("exhaustive grid: 5 action types x coordination blocks {0,900,999900,2^40,2^63-1400}; node.processCoordinationResult dispatches the real action with the node's real signing executor (one local signer: every attempt is a minority, the loop runs to exhaustion) on a virtual chain. non-trivial = the action's deadline wait and the executor's loop-timeout wait were both observed")
+	r.SetRule("exhaustive grids. (a) 5 action types x coordination blocks {0,900,999900,2^40,2^63-1400}: node.processCoordinationResult dispatches the real action with the node's real signing executor (one local signer of five: every attempt is a minority, the loop runs to exhaustion) on a virtual chain that only moves while every goroutine is blocked. (b) 5 action types x signing windows {36,45,88,100,170} blocks: the real action around the same real executor with an expiry so close that its signing deadline arrives while the retry loop of the (first) message is still running. non-trivial = (a) the action's deadline wait and the executor's waits were observed and the action ended; (b) signing was still in progress when the chain reached the deadline")
 	r.SetExhaustive(true)
+	lp, okL := c46LoopLength(t, r)
+	if !okL {
+		r.Inconclusive("loop length not measurable")
+		return
+	}
+	r.Count("loop_blocks", int64(lp.L))
+	type gridRun struct {
+		deadlines []uint64
+		recs      []c46WaitRec
+		calls     []c46CounterCall
+		endedAt   uint64
+	}
+	gridOnce := func(kind WalletActionType, window *coordinationWindow, start uint64, desc string) (gridRun, bool) {
+		var out gridRun
+		s, err := c46NewSetup(kind, start)
+		if err != nil {
+			r.Inconclusive("set-up: " + err.Error())
+			return out, false
+		}
+		cn, err := c46BuildNode(t, s)
+		if err != nil {
+			r.Inconclusive("node: " + err.Error())
+			return out, false
+		}
+		busy := func() bool {
+			cn.node.walletDispatcher.actionsMutex.Lock()
+			defer cn.node.walletDispatcher.actionsMutex.Unlock()
+			return len(cn.node.walletDispatcher.actions) > 0
+		}
+		if r.Guard("node:", desc, func() {
+			processCoordinationResult(cn.node, &coordinationResult{wallet: s.wallet, window: window, proposal: s.proposal})
+		}) {
+			return out, false
+		}
+		if !busy() && len(cn.execRec.records()) == 0 {
+			r.Inconclusive("action was not dispatched: " + desc)
+			return out, false
+		}
+		finished := c46Drive(s.clk, func() bool { return !busy() })
+		out.endedAt = s.clk.Height()
+		out.deadlines = c46ActionDeadlines(s.counter)
+		out.recs = cn.execRec.records()
+		out.calls = s.counter.calls()
+		c46Flush(s.clk)
+		if !finished {
+			r.Inconclusive("dispatched action did not end: " + desc)
+			return out, false
+		}
+		return out, true
+	}
 	for _, kind := range c46Actions {
 		for _, cb := range c46CoordinationBlocks {
 			doc := c46Docs[kind]
 			window := newCoordinationWindow(cb)
 			start := window.endBlock() // the action start, by definition the end of the window
 			desc := fmt.Sprintf("node action=%s coordinationBlock=%d start=%d", kind, cb, start)
-			s, err := c46NewSetup(kind, start)
-			if err != nil {
-				r.Inconclusive("set-up: " + err.Error())
-				continue
-			}
-			cn, err := c46BuildNode(t, s)
-			if err != nil {
-				r.Inconclusive("node: " + err.Error())
-				continue
-			}
-			busy := func() bool {
-				cn.node.walletDispatcher.actionsMutex.Lock()
-				defer cn.node.walletDispatcher.actionsMutex.Unlock()
-				return len(cn.node.walletDispatcher.actions) > 0
-			}
-			if r.Guard("node:", desc, func() {
-				processCoordinationResult(cn.node, &coordinationResult{wallet: s.wallet, window: window, proposal: s.proposal})
-			}) {
-				continue
-			}
-			if !busy() && len(cn.execRec.records()) == 0 {
-				r.Inconclusive("action was not dispatched: " + desc)
-				continue
-			}
-			finished := c46Drive(s.clk, func() int { return len(cn.execRec.records()) + len(s.counter.calls()) }, func() bool { return !busy() })
-			c46Flush(s.clk)
-			if !finished {
-				r.Inconclusive("dispatched action did not end: " + desc)
-				continue
-			}
-			// the action's own waits go through node.waitForBlockHeight, i.e.
-			// BlockHeightWaiter of the chain's block counter
-			var deadlines []uint64
-			for _, c := range s.counter.calls() {
-				if c.Method == "BlockHeightWaiter" {
-					deadlines = append(deadlines, c.Block)
+			limit := start + doc.validity - doc.signMargin
+			var g gridRun
+			var ok, usable bool
+			var D, minW, signStart uint64
+			// a late observation can only make the executor's first wait look
+			// later: a suspected violation is repeated and reported only when
+			// it shows every time
+			for try := 0; try < 3; try++ {
+				g, ok = gridOnce(kind, window, start, desc)
+				if !ok {
+					break
 				}
+				var okW bool
+				minW, okW = c46MinTarget(g.recs)
+				usable = len(g.deadlines) == 1 && okW
+				if !usable {
+					break
+				}
+				D = g.deadlines[0]
+				signStart = minW - lp.firstRel
+				if !(minW < start || minW < lp.firstRel || signStart < start || D > limit || signStart+lp.L > D) {
+					break
+				}
+				r.Count("grid_runs_repeated", 1)
 			}
-			recs := cn.execRec.records()
-			lt, minW, loopWaits, okLT := c46LoopTimeout(recs, nil)
-			if len(deadlines) != 1 || !okLT {
+			if !ok {
+				continue
+			}
+			recs, endedAt := g.recs, g.endedAt
+			if !usable {
 				r.Case(desc, false)
-				r.Inconclusive(fmt.Sprintf("%s: expected one deadline wait of the action and an identifiable executor loop timeout; got deadlines=%v executor waits=%v", desc, deadlines, c46Targets(recs)))
+				r.Inconclusive(fmt.Sprintf("%s: expected one deadline wait of the action and block waits of the executor; got deadlines=%v executor waits=%v", desc, g.deadlines, c46Targets(recs)))
 				continue
 			}
 			r.Case(desc, true)
-			D := deadlines[0]
 			name := kind.String()
-			wit := map[string]interface{}{"action_start": start, "deadline_wait": D, "executor_loop_timeout_wait": lt, "executor_first_wait": minW,
-				"executor_waits": c46Targets(recs), "chain_counter_calls": s.counter.calls(), "documented_validity": doc.validity, "documented_signing_margin": doc.signMargin}
-			if minW < start || lt < start {
-				r.Violation("node:"+name+":signing-starts-before-action", fmt.Sprintf("the signing executor waits for block %d, before the action start %d", minW, start), desc, wit)
+			// the executor's first wait is lp.firstRel blocks after the
+			// start block it was given (measured on the same executor)
+			wit := map[string]interface{}{"action_start": start, "deadline_wait": D, "executor_first_wait": minW, "signing_start": signStart,
+				"one_retry_loop_blocks": lp.L, "action_ended_at_block": endedAt,
+				"executor_waits": c46Targets(recs), "chain_counter_calls": g.calls, "documented_validity": doc.validity, "documented_signing_margin": doc.signMargin}
+			if minW < start || minW < lp.firstRel || signStart < start {
+				r.Violation("node:"+name+":signing-starts-before-action", fmt.Sprintf("the signing executor waits for block %d (signing start %d), before the action start %d", minW, signStart, start), desc, wit)
 			}
-			limit := start + doc.validity - doc.signMargin
 			if D > limit {
 				r.Violation("node:"+name+":signing-deadline-inside-margin", fmt.Sprintf("signing context is cancelled at block %d; documented: validity %d blocks from the start %d, signing ends %d blocks earlier, i.e. not after %d", D, doc.validity, start, doc.signMargin, limit), desc, wit)
 			}
-			if lt > D {
-				r.Violation("node:"+name+":no-room-for-one-signing-loop", fmt.Sprintf("the signing executor would give up at block %d, after the signing deadline %d: one complete retry loop does not fit", lt, D), desc, wit)
+			if signStart+lp.L > D {
+				r.Violation("node:"+name+":no-room-for-one-signing-loop", fmt.Sprintf("signing starts at block %d and one complete retry loop takes %d blocks, the signing deadline is block %d", signStart, lp.L, D), desc, wit)
 			}
 			if cb == 900 {
 				r.Sample(map[string]interface{}{"action": name, "coordination_block": cb, "action_start": start, "signing_deadline_wait": D,
-					"executor_first_wait": minW, "executor_gives_up_at": lt, "executor_loop_waits": loopWaits})
+					"executor_first_wait": minW, "action_ended_at_block": endedAt, "executor_waits": len(recs)})
 			}
 		}
 	}
+
+	// (b) the signing deadline arrives while signing is in progress
+	type dlRun struct {
+		T, retAt uint64
+		execErr  error
+		recs     []c46WaitRec
+		late     []c46WaitRec
+		state    string // "", "not-reached", "over-before-deadline"
+		note     string
+	}
+	runOnce := func(kind WalletActionType, start, expiry uint64, desc string) (dlRun, bool) {
+		var out dlRun
+		s, err := c46NewSetup(kind, start)
+		if err != nil {
+			r.Inconclusive("set-up: " + err.Error())
+			return out, false
+		}
+		cn, err := c46BuildNode(t, s)
+		if err != nil {
+			r.Inconclusive("node: " + err.Error())
+			return out, false
+		}
+		act, err := c46RealAction(cn, s, start, expiry)
+		if err != nil {
+			r.Inconclusive(desc + ": " + err.Error())
+			return out, false
+		}
+		var mu sync.Mutex
+		var done bool
+		go func() {
+			var e error
+			r.Guard("node:", desc, func() { e = act.execute() })
+			h := s.clk.Height()
+			mu.Lock()
+			out.retAt, out.execErr, done = h, e, true
+			mu.Unlock()
+		}()
+		finished := c46Drive(s.clk, func() bool { mu.Lock(); defer mu.Unlock(); return done })
+		deadlines := c46ActionDeadlines(s.counter)
+		out.recs = cn.execRec.records()
+		c46Flush(s.clk)
+		if !finished {
+			r.Inconclusive("action did not end: " + desc)
+			return out, false
+		}
+		if len(deadlines) != 1 || len(out.recs) == 0 {
+			out.state = "not-reached"
+			out.note = fmt.Sprintf("err=%v, deadlines=%v, %d executor waits", out.execErr, deadlines, len(out.recs))
+			return out, true
+		}
+		out.T = deadlines[0]
+		if out.retAt < out.T {
+			out.state = "over-before-deadline"
+			return out, true
+		}
+		for _, x := range out.recs {
+			if x.At > out.T {
+				out.late = append(out.late, x)
+			}
+		}
+		return out, true
+	}
+	var inProgress int64
+	for _, kind := range c46Actions {
+		for _, w := range c46ShortWindows {
+			doc := c46Docs[kind]
+			start := uint64(1000)
+			expiry := start + w + doc.signMargin
+			desc := fmt.Sprintf("node deadline-during-signing action=%s start=%d expiry=%d", kind, start, expiry)
+			// A late observation (the chain moved although something was still
+			// in flight) can only make things look later than they are. A
+			// suspected overrun is therefore repeated and reported only when
+			// it shows every time; a real defect is deterministic.
+			var res dlRun
+			ok := false
+			for try := 0; try < 3; try++ {
+				res, ok = runOnce(kind, start, expiry, desc)
+				if !ok || res.state != "" || (res.retAt <= res.T && len(res.late) == 0) {
+					break
+				}
+				r.Count("deadline_scenarios_repeated", 1)
+			}
+			if !ok {
+				continue
+			}
+			if res.state == "not-reached" {
+				r.Case(desc, false)
+				r.Inconclusive(fmt.Sprintf("%s: signing step not reached (%s)", desc, res.note))
+				continue
+			}
+			if res.state == "over-before-deadline" {
+				// signing was over before the deadline: not the situation wanted
+				r.Case(desc, false)
+				r.Count("deadline_scenarios_signing_over_before_deadline", 1)
+				continue
+			}
+			r.Case(desc, true)
+			inProgress++
+			name := kind.String()
+			T, retAt, execErr, recs, late := res.T, res.retAt, res.execErr, res.recs, res.late
+			wit := map[string]interface{}{"action_start": start, "expiry": expiry, "signing_deadline": T, "action_returned_at_block": retAt,
+				"action_error": fmt.Sprint(execErr), "executor_waits": recs, "executor_waits_started_after_deadline": late}
+			// Allowed: what the unchanged executor does when its context ends
+			// at block T - waits registered while the chain is AT block T
+			// (the loop, woken by the cancellation, still sets up the
+			// announcement of the attempt it was about to start and drops
+			// it at once) and a return at block T. Not allowed: anything
+			// started at a later block, or a return at a later block.
+			if retAt > T || len(late) > 0 {
+				r.Violation("node:"+name+":signing-continues-after-deadline", fmt.Sprintf("the signing deadline of the action is block %d; the action returned at block %d and the signing executor started %d block wait(s) after the chain had passed the deadline", T, retAt, len(late)), desc, wit)
+			}
+			if execErr == nil {
+				r.Violation("node:"+name+":no-failure-after-deadline", "signing was cut by the deadline but the action reported success", desc, wit)
+			}
+			if w == 100 {
+				r.Sample(map[string]interface{}{"scenario": "deadline during signing", "action": name, "action_start": start, "signing_deadline": T,
+					"action_returned_at_block": retAt, "action_error": fmt.Sprint(execErr), "executor_waits": c46Targets(recs)})
+			}
+		}
+	}
+	r.Count("deadline_scenarios_signing_in_progress", inProgress)
 }
